@@ -138,29 +138,33 @@ def check(ctx):
         ctx.report("R15.1", fi, "guard", "the string parser never validates its input against a full-signature pattern")
         return
     gname, gpat, gtext = guards[0]
-    if gtext != "(X:center)->(X:left)":
-        ctx.report("R15.1", fi, "guard input", f"the pattern is applied to {gtext!r}; it must see the raw input with spaces removed")
-    else:
-        ctx.ok("R15.1", "guard input", "raw input with spaces removed")
     first_extract = next((i for i, r in enumerate(rec) if r[0] in ("findall", "sub")), None)
     if first_extract is not None and rec.index(guards[0]) > first_extract:
         ctx.report("R15.1", fi, "guard order", "names/positions are extracted before the input is validated")
-    try:
-        impl = rx.compile_pattern(gpat, {"match": "match", "fullmatch": "fullmatch", "search": "search"}[gname])
-        spec = rx.compile_pattern(rx.spec_signature_pattern(), "fullmatch")
-        extra = rx.difference_witnesses(impl, spec)
-        missing = rx.difference_witnesses(spec, impl)
-        ctx.note("automata", {"implementation_states": impl.n_states(), "grammar_states": spec.n_states(), "function": "re." + gname})
-        if extra:
-            ctx.report("R15.1", fi, "accepted language: malformed strings accepted", f"re.{gname} with the validating pattern accepts strings outside the grammar, e.g. {extra[:4]!r}")
-        else:
-            ctx.ok("R15.1", "accepted language is within the grammar", f"L(pattern under re.{gname}) - L(grammar) is empty ({impl.n_states()} x {spec.n_states()} states)")
-        if missing:
-            ctx.report("R15.1", fi, "accepted language: well-formed strings rejected", f"well-formed signatures are rejected, e.g. {missing[:4]!r}")
-        else:
-            ctx.ok("R15.1", "every grammatical string is accepted", "L(grammar) - L(pattern) is empty")
-    except rx.Unsupported as e:
-        ctx.unknown("R15.1", "automata", f"pattern construct not supported: {e}")
+    spec = rx.compile_pattern(rx.spec_signature_pattern(), "fullmatch")
+    if gtext == "(X:center)->(X:left)":
+        # one pattern validates the whole input: its language is compared with the grammar exactly, on automata
+        ctx.ok("R15.1", "guard input", "raw input with spaces removed")
+        try:
+            impl = rx.compile_pattern(gpat, {"match": "match", "fullmatch": "fullmatch", "search": "search"}[gname])
+            extra = rx.difference_witnesses(impl, spec)
+            missing = rx.difference_witnesses(spec, impl)
+            ctx.note("automata", {"implementation_states": impl.n_states(), "grammar_states": spec.n_states(), "function": "re." + gname})
+            if extra:
+                ctx.report("R15.1", fi, "accepted language: malformed strings accepted", f"re.{gname} with the validating pattern accepts strings outside the grammar, e.g. {extra[:4]!r}")
+            else:
+                ctx.ok("R15.1", "accepted language is within the grammar", f"L(pattern under re.{gname}) - L(grammar) is empty ({impl.n_states()} x {spec.n_states()} states)")
+            if missing:
+                ctx.report("R15.1", fi, "accepted language: well-formed strings rejected", f"well-formed signatures are rejected, e.g. {missing[:4]!r}")
+            else:
+                ctx.ok("R15.1", "every grammatical string is accepted", "L(grammar) - L(pattern) is empty")
+        except rx.Unsupported as e:
+            ctx.unknown("R15.1", "automata", f"pattern construct not supported: {e}")
+    else:
+        # the input is validated piecewise (split first, each piece matched, ...): no single pattern has the parser's
+        # language, so the parser as a whole is evaluated on a bounded family - well-formed signatures and every
+        # single-character deletion / insertion / substitution and token insertion of them - and its verdicts compared with the grammar
+        _acceptance_table(ctx, P, fi, spec)
     # rejection raises ValueError
     try:
         for bad_text in ("(X:center)", "(X:center)->", "X:center->X:left", "(X:centre)->(X:left)", "((X:center))->(X:left)", "(X:center)(Y:left)->()", "(:center)->()", "(X:)->()", "(X:center,,Y:left)->()", "(X:center)->(X:left)\n", "(X:center,)->()"):
@@ -176,6 +180,46 @@ def check(ctx):
     _constructors(ctx, P)
     _signature_source(ctx, P)
     _equivalence(ctx, P)
+
+
+def _acceptance_table(ctx, P, fi, spec):
+    seeds = ["(X:center)->(X:left)", "()->()", "(X:center,Y:left)->()", "(),(a_1:inner)->(Y:outer),()", "(X:center),(X:right)->(X:center,Z:outer)",
+             "(lon:left,lat:center),(lon:center,lat:left)->(lon:left,lat:left)"]
+    if ctx.thorough:
+        seeds += ["(X:outer)->(X:center),(X:center)", "(),()->()", "(x:right)->(y:inner,z:left)", "(_:center)->(__:center)"]
+    letters = "():,->xe \n"
+    texts = set(seeds)
+    for t in seeds:
+        for i in range(len(t) + 1):
+            for ch in list(letters) + ["->", "->()", "()", ",()", "(X:center)", "X:center", ":left", "),("]:
+                texts.add(t[:i] + ch + t[i:])
+            if i < len(t):
+                texts.add(t[:i] + t[i + 1:])
+                for ch in letters:
+                    texts.add(t[:i] + ch + t[i + 1:])
+    wrong_acc, wrong_ref, n = [], [], 0
+    for t in sorted(texts):
+        want = spec.run(t.replace(" ", ""))
+        try:
+            outs = run_from_string(P, t)
+        except Unmodelled as e:
+            ctx.unknown("R15.1", "acceptance table", f"{t!r}: {e}")
+            return
+        n += 1
+        got = all(o.kind == "return" for o in outs)
+        if got and not want:
+            wrong_acc.append(t)
+        if want and not got:
+            wrong_ref.append(t)
+    ctx.note("acceptance_table", {"texts": n, "note": "piecewise validation: bounded table instead of automata equality"})
+    if wrong_acc:
+        ctx.report("R15.1", fi, "accepted language: malformed strings accepted", f"the parser accepts strings outside the grammar, e.g. {sorted(wrong_acc, key=len)[:4]!r}")
+    else:
+        ctx.ok("R15.1", "accepted language is within the grammar", f"no malformed text among {n} (well-formed signatures and their single-character edits) is accepted")
+    if wrong_ref:
+        ctx.report("R15.1", fi, "accepted language: well-formed strings rejected", f"well-formed signatures are rejected, e.g. {sorted(wrong_ref, key=len)[:4]!r}")
+    else:
+        ctx.ok("R15.1", "every grammatical string is accepted", f"every well-formed text among {n} is accepted")
 
 
 def _round_trip(ctx, P):
